@@ -40,6 +40,9 @@ class LoanManager:
         # Create the loan and update balances.
         loan = self._lending_strategy.create_loan(symbol, amount, self._ctx.dispatcher.now())
         required_collateral = loan.calculate_collateral(self._ctx.prices)
+        # Build the loan info before touching the account. If the interest can't be calculated, for example because
+        # there is no price yet to convert it, the request has to fail without leaving the loan behind.
+        loan_info = self._build_loan_info(loan)
         self._ctx.account_balances.update(
             balance_updates={loan.borrowed_symbol: loan.borrowed_amount},
             borrowed_updates={loan.borrowed_symbol: loan.borrowed_amount},
@@ -50,7 +53,7 @@ class LoanManager:
         self._loans.add(loan)
         self._collateral_by_loan[loan.id] = ValueMap(required_collateral)
 
-        return self._build_loan_info(loan)
+        return loan_info
 
     def get_loans(
             self, borrowed_symbol: Optional[str] = None, is_open: Optional[bool] = None
